@@ -132,6 +132,7 @@ add('outer4', [('float', 4), ('float', 4)], [('float', 16)], 'stm(o, glm::outerP
 for s_, T in (('f', 'float'), ('d', 'double')):
     Q = 'ldq<%s,QQ>' % T
     add('qadd_' + s_, [(T, 4), (T, 4), (T, 1)], [(T, 4)] * 4, 'stq(o, %s(a) + %s(b)); stq(o2, %s(a) - %s(b)); stq(o3, %s(a) * c[0]); stq(o4, %s(a) / c[0]);' % ((Q,) * 6))
+    add('qscal_' + s_, [(T, 4), (T, 1)], [(T, 4)] * 2, '{ auto q = %s(a); q *= b[0]; stq(o, q); } { auto q = %s(a); q /= b[0]; stq(o2, q); }' % (Q, Q))       # compound forms: the only users of compute_quat_mul_scalar / _div_scalar
     add('qmul_' + s_, [(T, 4), (T, 4)], [(T, 4)], 'stq(o, %s(a) * %s(b));' % (Q, Q), cls='real')
     add('qrot_' + s_, [(T, 4), (T, 4)], [(T, 4)], 'stv(o, %s(a) * ldv<4,%s,QQ>(b));' % (Q, T), cls='real')
     add('qrot3_' + s_, [(T, 4), (T, 3)], [(T, 3)], 'stv(o, %s(a) * ldv<3,%s,QQ>(b));' % (Q, T), cls='real')
